@@ -143,6 +143,7 @@ type world struct {
 	submitted  []string          // C12: request ids in submission order
 	stepNo     int
 	submitStep map[string]int // step at which a request was submitted
+	lastResp   map[string]M   // the implementation's response per request id (canonical form)
 	finishedAt map[string]int // C07: step at which a task was first seen completed / timed out in the database
 	doneStep   map[string]int // C01: step at which a promise was first observed completed
 }
@@ -162,6 +163,31 @@ func (w *world) c09Leases(counts map[string]int, reqs map[string]M, items []Item
 		return out
 	}
 	pl, cl := rowsOf(prev), rowsOf(cur)
+	// the owning process: a lock written by an acquire of this batch names the acquiring process (it is that process whose
+	// heartbeats must extend the lease)
+	for _, it := range items {
+		rq := reqs[it.Tid]
+		c, _ := rq["c"].(map[string]any)
+		if rq["k"] != "AcquireLock" || c == nil || it.Mode == "before" {
+			continue
+		}
+		rid, eid, pid := fmt.Sprint(c["resourceId"]), fmt.Sprint(c["executionId"]), fmt.Sprint(c["processId"])
+		u, t := cl[rid], pl[rid]
+		if u == nil || fmt.Sprint(u["executionId"]) != eid || (t != nil && reflect.DeepEqual(t, u)) {
+			continue
+		}
+		ambiguous := false
+		for _, it2 := range items {
+			rq2 := reqs[it2.Tid]
+			c2, _ := rq2["c"].(map[string]any)
+			if it2.Tid != it.Tid && rq2["k"] == "AcquireLock" && c2 != nil && fmt.Sprint(c2["resourceId"]) == rid && fmt.Sprint(c2["executionId"]) == eid && fmt.Sprint(c2["processId"]) != pid {
+				ambiguous = true
+			}
+		}
+		if !ambiguous && fmt.Sprint(u["processId"]) != pid {
+			return fmt.Sprintf("lock on %q acquired by execution %s for process %s is stored as held by process %v: heartbeats of the owning process cannot extend it", rid, eid, pid, u["processId"])
+		}
+	}
 	released := map[string]bool{}
 	for _, it := range items {
 		rq := reqs[it.Tid]
@@ -507,7 +533,7 @@ func newWorld(path string, cfg Cfg, bg bool) (*world, error) {
 		return nil, err
 	}
 	boot.Close()
-	w := &world{cfg: cfg, bg: bg, path: path, seen: map[string]M{}, submitAt: map[string]int64{}, leases: map[string]*lease{}, lockLeases: map[string]*lease{}, claimed: map[string]bool{}, submitStep: map[string]int{}, finishedAt: map[string]int{}, doneStep: map[string]int{}, respN: map[string]int{}, lost: map[string]bool{}}
+	w := &world{cfg: cfg, bg: bg, path: path, seen: map[string]M{}, submitAt: map[string]int64{}, leases: map[string]*lease{}, lockLeases: map[string]*lease{}, claimed: map[string]bool{}, submitStep: map[string]int{}, finishedAt: map[string]int{}, lastResp: map[string]M{}, doneStep: map[string]int{}, respN: map[string]int{}, lost: map[string]bool{}}
 	w.rdb, err = sql.Open("sqlite3", path)
 	if err != nil {
 		return nil, err
@@ -934,6 +960,7 @@ func (r *runner) apply(w *world, st Step) (M, bool) {
 			}
 			if m["e"] == "respond" {
 				resp := m["resp"].(map[string]any)
+				w.lastResp[fmt.Sprint(m["tid"])] = resp
 				if rq := r.reqs[fmt.Sprint(m["tid"])]; monitors["C07"] && rq["k"] == "ClaimTask" && jnum(resp["status"]) == 20100 {
 					c, _ := rq["c"].(map[string]any)
 					key := fmt.Sprintf("%v#%v", c["id"], c["counter"])
@@ -1559,7 +1586,148 @@ func (r *runner) generate(g *gen.G, cfg Cfg, bg bool, o genOpts) ([]Step, int, M
 		}
 		return nil, false
 	}
+	// C14 as stated: a population with mixed tags, then one search followed through its cursors to the end; the pages
+	// together must be exactly the matching set, once each, newest first, nothing that does not match
+	traversalScenario := func() (M, bool) {
+		sched := hasKind(t_api.SearchSchedules) && hasKind(t_api.CreateSchedule) && g.R.Intn(2) == 0
+		pre := fmt.Sprintf("trav%d-", nreq)
+		n := 4 + g.R.Intn(4)
+		team := func(i int) string { return []string{"a", "b"}[(i*7+i/2)%2] }
+		mk := func(k t_api.Kind) (*t_api.Request, string) {
+			nreq++
+			tid := fmt.Sprintf("r%d", nreq)
+			return &t_api.Request{Kind: k, Tags: map[string]string{"id": tid, "name": k.String(), "protocol": "dst"}}, tid
+		}
+		for i := 0; i < n; i++ {
+			var rq *t_api.Request
+			var tid string
+			if sched {
+				rq, tid = mk(t_api.CreateSchedule)
+				rq.CreateSchedule = &t_api.CreateScheduleRequest{Id: pre + fmt.Sprint(i), Cron: "0 * * * * *", Tags: map[string]string{"team": team(i), "n": fmt.Sprint(i)},
+					PromiseId: pre + "p.{{.timestamp}}", PromiseTimeout: 1000, PromiseTags: map[string]string{}}
+			} else {
+				rq, tid = mk(t_api.CreatePromise)
+				rq.CreatePromise = &t_api.CreatePromiseRequest{Id: pre + fmt.Sprint(i), Timeout: now + 1000000, Tags: map[string]string{"team": team(i), "n": fmt.Sprint(i)}}
+			}
+			if info, pred := do(Step{Op: "submit", Tid: tid, Req: canon.Req(rq)}); info != nil {
+				return info, pred
+			}
+			if info, pred := settle(2, 1); info != nil {
+				return info, pred
+			}
+		}
+		if info, pred := settle(3, 1); info != nil {
+			return info, pred
+		}
+		// the matching set as the database holds it now (creations may have failed under injected failures)
+		want := []string{}
+		table := "promises"
+		if sched {
+			table = "schedules"
+		}
+		if rows, err := w.rdb.Query(`SELECT id, tags FROM ` + table + ` WHERE id LIKE '` + pre + `%' AND id NOT LIKE '` + pre + `p.%' ORDER BY sort_id DESC`); err == nil {
+			for rows.Next() {
+				var id string
+				var tags []byte
+				if rows.Scan(&id, &tags) == nil {
+					tm := map[string]string{}
+					_ = json.Unmarshal(tags, &tm)
+					if tm["team"] == "a" {
+						want = append(want, id)
+					}
+				}
+			}
+			rows.Close()
+		} else {
+			return nil, false
+		}
+		limit := 1 + g.R.Intn(2)
+		var sortId *int64
+		got := []string{}
+		for page := 0; page < 2*n+2; page++ {
+			var rq *t_api.Request
+			var tid string
+			if sched {
+				rq, tid = mk(t_api.SearchSchedules)
+				rq.SearchSchedules = &t_api.SearchSchedulesRequest{Id: pre + "*", Tags: map[string]string{"team": "a"}, Limit: limit, SortId: sortId}
+			} else {
+				rq, tid = mk(t_api.SearchPromises)
+				rq.SearchPromises = &t_api.SearchPromisesRequest{Id: pre + "*", States: []promise.State{promise.Pending, promise.Resolved, promise.Rejected, promise.Timedout, promise.Canceled},
+					Tags: map[string]string{"team": "a"}, Limit: limit, SortId: sortId}
+			}
+			if page > 0 {
+				// the next request is whatever the previous page's cursor says (as a client would send it back)
+				prev := w.lastResp[fmt.Sprintf("r%d", nreq-1)]
+				cur, _ := prev["cursor"].(map[string]any)
+				if cur == nil {
+					break
+				}
+				tags := map[string]string{}
+				if ps, _ := cur["tags"].([]any); ps != nil {
+					for _, kv := range ps {
+						if p2, _ := kv.([]any); len(p2) == 2 {
+							tags[fmt.Sprint(p2[0])] = fmt.Sprint(p2[1])
+						}
+					}
+				}
+				var sid *int64
+				if cur["sortId"] != nil {
+					v := jnum(cur["sortId"])
+					sid = &v
+				}
+				if sched {
+					rq.SearchSchedules = &t_api.SearchSchedulesRequest{Id: fmt.Sprint(cur["id"]), Tags: tags, Limit: int(jnum(cur["limit"])), SortId: sid}
+				} else {
+					sts := []promise.State{}
+					if xs, _ := cur["states"].([]any); xs != nil {
+						for _, x := range xs {
+							sts = append(sts, promise.State(jnum(x)))
+						}
+					}
+					rq.SearchPromises = &t_api.SearchPromisesRequest{Id: fmt.Sprint(cur["id"]), States: sts, Tags: tags, Limit: int(jnum(cur["limit"])), SortId: sid}
+				}
+			}
+			if info, pred := do(Step{Op: "submit", Tid: tid, Req: canon.Req(rq)}); info != nil {
+				return info, pred
+			}
+			if info, pred := settle(3, 1); info != nil {
+				return info, pred
+			}
+			resp := w.lastResp[tid]
+			if resp == nil || jnum(resp["status"]) != 20000 {
+				return nil, false // not answered / platform error: no verdict from this traversal
+			}
+			key := "promises"
+			if sched {
+				key = "schedules"
+			}
+			rows, _ := resp[key].([]any)
+			if len(rows) > limit {
+				return M{"what": "property monitor failed on an implementation response", "property": "C14", "diff": fmt.Sprintf("a page of %d rows for page size %d", len(rows), limit), "property_violation": true}, false
+			}
+			for _, x := range rows {
+				if m, _ := x.(map[string]any); m != nil {
+					got = append(got, fmt.Sprint(m["id"]))
+				}
+			}
+			if resp["cursor"] == nil {
+				break
+			}
+		}
+		if monitors["C14"] && !reflect.DeepEqual(got, want) {
+			return M{"what": "property monitor failed on an implementation response", "property": "C14",
+				"diff": fmt.Sprintf("following the cursors of a search for %s* with tag team=a (page size %d) returned %v; the matching set, newest first, is %v", pre, limit, got, want), "property_violation": true}, false
+		}
+		r.counts["traversals"]++
+		return nil, false
+	}
 	for len(steps) < o.steps {
+		if monitors["C14"] && ((hasKind(t_api.SearchPromises) && hasKind(t_api.CreatePromise)) || (hasKind(t_api.SearchSchedules) && hasKind(t_api.CreateSchedule))) && g.R.Intn(40) == 0 {
+			if info, pred := traversalScenario(); info != nil {
+				return steps, len(steps) - 1, info, pred
+			}
+			continue
+		}
 		if hasKind(t_api.CreateCallback) && hasKind(t_api.CreateSubscription) && hasKind(t_api.CompletePromise) && g.R.Intn(70) == 0 {
 			if info, pred := registrationScenario(); info != nil {
 				return steps, len(steps) - 1, info, pred
